@@ -183,6 +183,10 @@ type respRec struct {
 	nx     bool // ... because the name does not exist
 	// the reply carried Age / Cache-Control headers
 	httpCache bool
+	// glue: not an answer to a question of its own: address records that rode
+	// along in the additional section of another answer. A resolver may use
+	// them (for as long as the smallest TTL of that response allows) or not.
+	glue bool
 }
 
 func keyOf(name string, typ uint16) string {
@@ -222,6 +226,26 @@ func responsesOf(log []simdoh.Entry) []respRec {
 		r.nAns = len(e.Reply.Answer)
 		r.values = valuesOf(simdoh.Final(e.Reply.Answer, e.QName, e.QType))
 		out = append(out, r)
+		// glue
+		whole := r.minTTL
+		byOwner := map[string][]simdoh.RR{}
+		var owners []string
+		for _, a := range e.Reply.Additional {
+			if a.Type != simdoh.TypeA && a.Type != simdoh.TypeAAAA {
+				continue
+			}
+			whole = math.Min(whole, float64(a.TTL))
+			k := keyOf(a.Name, a.Type)
+			if _, ok := byOwner[k]; !ok {
+				owners = append(owners, k)
+			}
+			byOwner[k] = append(byOwner[k], a)
+		}
+		for _, k := range owners {
+			g := respRec{key: k, done: e.Done, tick: e.TickDone, glue: true, nAns: len(byOwner[k]), values: valuesOf(byOwner[k])}
+			g.minTTL, g.maxTTL = whole, whole
+			out = append(out, g)
+		}
 	}
 	return out
 }
@@ -464,7 +488,7 @@ func mustHitRule(res *core.Result, prop string, resps []respRec, byKey map[strin
 			o := struct{ key string }{key}
 			var last *respRec
 			for _, ri := range byKey[o.key] {
-				if resps[ri].tick < c.c0 {
+				if resps[ri].tick < c.c0 && !resps[ri].glue {
 					last = &resps[ri]
 				}
 			}
@@ -490,7 +514,7 @@ func mustHitRule(res *core.Result, prop string, resps []respRec, byKey map[strin
 				continue
 			}
 			for _, ri := range byKey[o.key] {
-				if resps[ri].tick > c.c0 && resps[ri].tick < c.c1 {
+				if resps[ri].tick > c.c0 && resps[ri].tick < c.c1 && !resps[ri].glue {
 					res.Fail(prop, "cache-miss", "repeated lookup within the TTL went upstream", "call %d at %v, key %s: response of %v (min TTL %v s) still fresh, %d keys in use, cache size %d", ci, c.t1, o.key, last.done, last.minTTL, keysTouched(c.c1), size)
 					break
 				}
@@ -525,6 +549,9 @@ type SeqPlan struct {
 	// NegSOA: answers without records carry the zone's SOA in the authority
 	// section (TTL 7200, MINIMUM 86400).
 	NegSOA bool `json:"neg_soa,omitempty"`
+	// Glue > 0: HTTPS answers carry the address records of their targets in the
+	// additional section, with this TTL.
+	Glue uint32 `json:"glue,omitempty"`
 }
 
 var seqHosts = []string{"a.test", "b.test", "c.d.test", "e.test"}
@@ -603,6 +630,9 @@ func genC16(seed uint64, idx int) *Plan {
 		p.HTTPCache = 1 + r.Uint64()>>1
 	}
 	p.NegSOA = idx%8 == 4
+	if idx%16 == 2 || idx%16 == 10 {
+		p.Glue = core.Pick(r, []uint32{1, 1, 5, 30})
+	}
 	lat := time.Duration(p.LatencyUs) * time.Microsecond
 	var ttls []int64
 	for _, n := range p.Names {
@@ -671,6 +701,7 @@ func executeSeq(t *testing.T, prop string, pl *Plan) *core.Result {
 			if p.NegSOA {
 				z.NegSOA, z.NegSOATTL, z.NegSOAMin = true, 7200, 86400
 			}
+			z.Glue = p.Glue
 			return z
 		}
 		srv := simdoh.NewServer(buildZone(p.Names, st, fault))
